@@ -40,7 +40,7 @@ for p in props:
             "engine": "pyvc",
             "level_claimed": {
                 "category": "proof",
-                "text": info.get("level_text", ""),
+                "text": info.get("level_text", "") + ((" DEPENDENCIES discharged inside this check (obligations of other properties' tasks that this property's lemma / contracts consume; task regex : clause regex): " + "; ".join("%s : %s" % d for d in info["depends"])) if info.get("depends") else ""),
                 "design_ref": "DESIGN.md section 4/" + pid,
             },
             "level_note": "; ".join(info.get("assumptions", []) + ["NOT DECIDED: " + x for x in info.get("not_decided", [])]),
